@@ -172,7 +172,7 @@ static void history_case(Tape& t, Ctx& c)
     J h = J::obj(); std::string opn = on[op];
     MSlot src = w.m.s[si];
     // views (foreign memory) only support: deep clone, write, destroy, (being read)
-    if(!live.empty() && src.view && !(op == O_CLONE || op == O_WRITE || op == O_DESTROY || op == O_BUILD)) op = O_DESTROY, opn = on[op];
+    if(!live.empty() && src.view && !(op == O_CLONE || op == O_WRITE || op == O_DESTROY || op == O_BUILD || op == O_MOVEC || op == O_MOVEA)) op = O_DESTROY, opn = on[op];
     switch(op)
     {
     case O_BUILD: { int kind = t.range(0, K_COUNT - 1); h.set("op", opn); h.set("dst", di); h.set("kind", kname[kind]); auto nb = build(t, kind, h); w.note(h, opn); w.drop(di); w.o[di] = std::move(nb); w.adopt(di); break; }
@@ -206,12 +206,16 @@ static void history_case(Tape& t, Ctx& c)
       for(int id : src.e) { const Arr& a = w.m.arr.at(id); std::vector<double> v = a.dv; if(narrow) for(auto& x : v) x = (double)(float)x; ms.e.push_back(w.m.add_e(a.count, esz_of(tk), v, a.defined)); }
       for(int id : src.i) { const Arr& a = w.m.arr.at(id); ms.i.push_back(w.m.add_i(a.count, isz_of(tk), a.iv, a.defined)); }
       w.m.s[di] = ms; break; }
-    case O_MOVEC: { if(di == si) di = (si + 1) % 8; h.set("op", opn); h.set("src", si); h.set("dst", di); w.note(h, opn);
+    case O_MOVEC: { if(di == si) di = (si + 1) % 8;
+      if(src.view) { bool bad = false; if(w.m.s[di].kind >= 0 && !w.m.s[di].view) for(int id : w.m.s[di].e) if(id == src.e[0] && w.m.owners(id) == 1) bad = true; if(bad) { --st; continue; } }
+      h.set("op", opn); h.set("src", si); h.set("dst", di); w.note(h, opn);
       w.drop(di); if(w.m.s[si].kind < 0) break;
       { auto nb = w.o[si]->move_construct(); w.o[si].reset();   // the moved-from object is destroyed right away
         w.o[di] = std::move(nb); w.m.s[di] = w.m.s[si]; w.m.s[si] = MSlot(); w.m.gc(); } break; }
     case O_MOVEA: { // move-assign onto an existing object of the same kind
-      int dj = -1; for(int k : live) if(k != si && w.m.s[k].kind == src.kind && !w.m.s[k].view) { dj = k; if(t.flag()) break; }
+      int dj = -1; for(int k : live) if(k != si && w.m.s[k].kind == src.kind && !w.m.s[k].view) {
+        if(src.view) { bool owns = false; for(int id : w.m.s[k].e) if(id == src.e[0] && w.m.owners(id) == 1) owns = true; if(owns) continue; }   // never move a view onto the last owner of the viewed array
+        dj = k; if(t.flag()) break; }
       if(dj < 0) { op = O_FORMAT; --st; continue; }
       h.set("op", opn); h.set("src", si); h.set("dst", dj); w.note(h, opn);
       // views into arrays only the target owns would dangle: drop them first (documented misuse otherwise)
